@@ -98,6 +98,17 @@ fn input(k: &Key) -> Vec<Item> {
             }
             v
         }
+        // n/2 distinct identifiers, then the same sequence once more (large inputs: beyond 2^16 distinct values)
+        "twice" => {
+            let half = k.n / 2;
+            let base = rng.random::<u64>() >> 2;
+            let mut v: Vec<Item> = (0..half).map(|i| Item { id: base + i as u64, w: 1.0 + (i % 7) as f64 }).collect();
+            if k.entry != "idxmap" && k.entry != "hashmap" {
+                let again = v.clone();
+                v.extend(again);
+            }
+            v
+        }
         "weights" => distinct(k.n, &mut rng, false)
             .into_iter()
             .map(|id| Item { id, w: PALETTE[rng.random_range(0..PALETTE.len())] })
